@@ -119,22 +119,29 @@ class World:
             extras = [k for k in (frames[0] if frames else {}) if k not in ("t", "u", "v")]
             dims = dict(u=("ocean_time", "s_rho", "eta_u", "xi_u"), v=("ocean_time", "s_rho", "eta_v", "xi_v"))
             vars_ = {}
+            # storage per variable: "i2" = all packed; "i2-bare" = packed, add_offset attribute left out where it is 0 (scale_factor only);
+            # "u-packed" / "v-packed" = only that velocity component (and the scalars) packed, the other one stored as float
+            per = {name: ("i2" if storage in ("i2", "i2-bare") else storage) for name in ["u", "v", *extras]}
+            if storage in ("u-packed", "v-packed"):
+                per = {name: "i2" for name in per}
+                per["v" if storage == "u-packed" else "u"] = "f8"
             for name in ["u", "v", *extras]:
                 d = dims.get(name, ("ocean_time", "s_rho", "eta_rho", "xi_rho"))
-                if storage == "i2":
+                if per[name] == "i2":
                     vv = nc.createVariable(name, "i2", d)
                     sf, off = (scale or {}).get(name, (2.0 ** -10, 0.0))
                     vv.scale_factor = np.float32(sf)
-                    vv.add_offset = np.float32(off)
+                    if not (storage == "i2-bare" and off == 0.0):
+                        vv.add_offset = np.float32(off)
                 else:
-                    vv = nc.createVariable(name, storage, d)
+                    vv = nc.createVariable(name, per[name], d)
                 vv.set_auto_maskandscale(False)
                 vars_[name] = vv
             for k, fr in enumerate(frames):
                 tv[k] = (fr["t"] - base) / div if not time_scale else int(round((fr["t"] - base) / div / time_scale))
                 for name in ["u", "v", *extras]:
                     a = np.asarray(fr[name], float)
-                    if storage == "i2":
+                    if per[name] == "i2":
                         sf, off = (scale or {}).get(name, (2.0 ** -10, 0.0))
                         q = (a - off) / sf
                         if not np.allclose(q, np.round(q)):
